@@ -208,6 +208,9 @@ func cmdCheck(args []string) int {
 		fts = append(fts, g.LemmaFT(only)...)
 	}
 	for _, ft := range fts {
+		for _, u := range ft.dropped {
+			undecided = append(undecided, "in "+shortKey(ft.name)+": "+u)
+		}
 		for _, u := range ft.unsupp {
 			undecided = append(undecided, "unsupported in "+shortKey(ft.name)+": "+u)
 		}
@@ -227,6 +230,12 @@ func cmdCheck(args []string) int {
 	fmt.Fprintf(os.Stderr, "[phase] load+translate %.1fs\n", tPhase.Sub(t0).Seconds())
 	res := runObligations(fts, dir, timeout, filter, 4)
 	fmt.Fprintf(os.Stderr, "[phase] obligations %.1fs\n", time.Since(tPhase).Seconds())
+	for _, r := range res {
+		if r.res.Secs > 5 {
+			// slow queries are the unstable ones: listed so that they can be restated before they start to flicker
+			fmt.Fprintf(os.Stderr, "[slow] %.1fs %s %s\n", r.res.Secs, r.res.Status, shortKey(r.o.Name))
+		}
+	}
 	tPhase = time.Now()
 	// vacuity covers
 	vac := runCovers(fts, dir, *tier == "thorough")
